@@ -229,6 +229,16 @@ def State.read (s : State) (fd : Int) (n : Nat) : State × R Bytes :=
         let bs := f.read o.pos n
         (s.setOfd fd.toNat (some { o with pos := o.pos + bs.length }), .ok bs)
 
+/-- `readv(fd, iov, cnt)` with segment lengths `lens`: one read of the total length, delivered into
+    the segments in order.  (LINUX) a total length of 0 returns 0 after the access-mode check,
+    also on a directory. -/
+def State.readv (s : State) (fd : Int) (lens : List Nat) : State × R Bytes :=
+  if lens.sum = 0 then
+    match s.ofd? fd with
+    | none => (s, .err .EBADF)
+    | some o => if !o.acc.canRead then (s, .err .EBADF) else (s, .ok [])
+  else s.read fd lens.sum
+
 /-- the bytes of `bs` that fit below `maxBytes` when written at `pos` -/
 def clip (maxBytes pos : Nat) (bs : Bytes) : Bytes := bs.take (maxBytes - pos)
 
